@@ -6,8 +6,8 @@
     [same_messages], [graph_equiv], …) is in [Model/GossipSpec.v]. *)
 From stdpp Require Import gmap.
 From Coq Require Import ZArith String.
-Require Import LdkV.Gen.GossipConsts LdkV.Model.Gossip LdkV.Model.GossipSpec LdkV.Model.GossipAsync LdkV.Proofs.C17.
-Require LdkV.Proofs.C17Step LdkV.Proofs.C17Removal LdkV.Proofs.C17Auth LdkV.Proofs.C17Order LdkV.Proofs.C17Async.
+Require Import LdkV.Gen.GossipConsts LdkV.Model.Gossip LdkV.Model.GossipSpec LdkV.Model.GossipAsync LdkV.Model.GossipPersist LdkV.Proofs.C17.
+Require LdkV.Proofs.C17Step LdkV.Proofs.C17Removal LdkV.Proofs.C17Auth LdkV.Proofs.C17Order LdkV.Proofs.C17Async LdkV.Proofs.C17Persist.
 Open Scope Z_scope.
 
 (** Whatever operations are applied (gossip from any entry point, valid or not, failures, pruning,
@@ -220,6 +220,28 @@ Theorem C17_rgs_incremental_effect : ∀ cf g sn u old m now v g',
     ui_prop new = opt_or (ru_prop u) (ui_prop old).
 Proof. exact C17Async.rgs_incremental_effect. Qed.
 
+(** ** Persistence ([NetworkGraph::write] / read), at schema level ([Model/GossipPersist.v]: per
+    channel and per node the record's fields in order, keyed by scid / node id; the removal tracking
+    is not written).  Reading back what was written gives the same channels and nodes with empty
+    removal tracking — the model's [OReload] step, which the check compares with a real
+    write + read after every reload op. *)
+Theorem C17_persist : ∀ g, read (write g) = Some (Graph (g_chans g) (g_nodes g) ∅ ∅).
+Proof. exact C17Persist.read_write. Qed.
+
+Theorem C17_persist_is_reload : ∀ cf g, read (write g) = Some (step cf g OReload).2.
+Proof. exact C17Persist.read_write_is_reload. Qed.
+
+(** What is read back is well formed / authentic when the written graph was, holds the same
+    directional information (so "newer only" and staleness carry over unchanged), and is a fixed
+    point of write + read. *)
+Theorem C17_persist_preserves : ∀ cf ops g g',
+  read (write g) = Some g' →
+  g_chans g' = g_chans g ∧ g_nodes g' = g_nodes g ∧ g_rmc g' = ∅ ∧ g_rmn g' = ∅ ∧
+  (wf g → wf g') ∧ (authentic cf ops g → authentic cf ops g') ∧
+  (∀ scid d, g_dir g' scid d = g_dir g scid d) ∧
+  read (write g') = Some g'.
+Proof. exact C17Persist.read_write_preserves. Qed.
+
 (** ** Non-vacuity (the concrete lists and the proofs that they satisfy the hypotheses are in
     [Proofs/C17Examples.v]) *)
 Require Import LdkV.Proofs.C17Examples.
@@ -293,3 +315,15 @@ Module ExAsync.
        [[3; 1; 70; 5; 104; 42]; [7; 0; 42]], [], []).
   Proof. by vm_compute. Qed.
 End ExAsync.
+
+Module ExPersist.
+  Import Examples.
+  (** a graph with a channel, both directions, a node announcement and a tracked removal: 1 channel
+      entry of 28 fields and 2 node entries are written, and what is read back is the same content
+      with the removal tracking gone *)
+  Example persist_example :
+    let g := Graph (g_chans (run cf g_init L1)) (g_nodes (run cf g_init L1)) {[5 := 9]} ∅ in
+    (List.length <$> (snd <$> pz_chans (write g)), List.length (pz_nodes (write g))) = ([28%nat], 2%nat) ∧
+    dump <$> read (write g) = Some (dump (run cf g_init L1)) ∧ (dump g).1.2 = [(5, 9)].
+  Proof. by vm_compute. Qed.
+End ExPersist.
